@@ -10,9 +10,12 @@
      increment          jetexpand_ode_coefficient_increment
      unroll_model       jetexpand_ode_unroll
      padded_scan_model  jetexpand_ode_padded_scan (zero padding, [:-1])
-     via_jvp_model      jetexpand_ode_via_jvp: F_{n+1} = <grad F_n, (x_1..x_{k-1}, f)>
-                        computed symbolically; t is CLOSED OVER (never
-                        differentiated), exactly as the code does
+     via_jvp_fixed_model  jetexpand_ode_via_jvp AS CODED NOW (repo commit 46ebe36):
+                        F_{n+1} = <grad_x F_n, (x_1..x_{k-1}, f)> + dF_n/dt, computed
+                        symbolically; t is one more primal with tangent one
+     via_jvp_model      the routine BEFORE that repair (finding F4): t CLOSED OVER,
+                        never differentiated; kept as documentation of the
+                        repaired defect and to recognise it should it return
      doubling_model     jetexpand_ode_doubling_unroll: Newton doubling on
                         normalised coefficients, jvp of the embedded jet,
                         factorial rescaling at the end; t closed over
@@ -148,8 +151,9 @@ Section Jet.
     let k := vf_k v in let d := vf_d v in
     if Nat.ltb (S j) k then pvar (S (k * d)) (S j * d + b) else nth b (vf_f v) [].
 
-  (* _fwd_recursion_iterate on one component: sum over the STATE variables
-     only; the time variable (index k*d) is closed over *)
+  (* _fwd_recursion_iterate on one component, the state part: sum over the
+     STATE variables (before the repair this was the whole step: the time
+     variable, index k*d, was closed over) *)
   Definition jvp_step_poly (v : vfield) (g : poly) : poly :=
     let k := vf_k v in let d := vf_d v in
     fold_right (fun idx acc =>
@@ -164,6 +168,7 @@ Section Jet.
   Fixpoint jvp_iter (v : vfield) (G : list poly) (n : nat) : list (list poly) :=
     match n with O => [] | S n' => G :: jvp_iter v (jvp_step v G) n' end.
 
+  (* the routine BEFORE the repair (t closed over): documentation of finding F4 *)
   Definition via_jvp_model (v : vfield) (inits : list tvec) (t : F) (num : nat)
     : option (list tvec) :=
     match num with
@@ -175,9 +180,9 @@ Section Jet.
       else None
     end.
 
-  (* CANDIDATE REPAIR of jetexpand_ode_via_jvp (not the current code): t is handed
-     to jvp as one more primal with tangent 1, i.e.
-     F_{n+1} = <grad_x F_n, (x_1, .., x_{k-1}, f)> + dF_n/dt *)
+  (* jetexpand_ode_via_jvp AS CODED NOW: vf_wrapped(*jet_coords, t) and
+     _fwd_recursion_iterate hand t to jvp as one more primal with tangent
+     ones_like(t), i.e.  F_{n+1} = <grad_x F_n, (x_1, .., x_{k-1}, f)> + dF_n/dt *)
   Definition pone : poly := [(1, [])].
   Definition jvp_step_poly_fixed (v : vfield) (g : poly) : poly :=
     padd (jvp_step_poly v g) (pmul (diff_poly (vf_k v * vf_d v) g) pone).
